@@ -133,20 +133,16 @@ def check_handle_stream_function(ctx):
 
 
 def _return_values(func):
-    """[(Return node, resolved value expr)] - a returned Name is resolved through its single assignment."""
-    assigns: dict[str, list] = {}
-    for st in rules.func_stmts(func.node):
-        if isinstance(st, ast.Assign):
-            for t in st.targets:
-                if isinstance(t, ast.Name):
-                    assigns.setdefault(t.id, []).append(st.value)
+    """[(Return node, value expr)] - a returned name stands for every value assigned to it (one pair per assignment)."""
+    cfg = cfg_of(func.node)
     out = []
-    for st in rules.func_stmts(func.node):
-        if isinstance(st, ast.Return):
-            v = st.value
-            if isinstance(v, ast.Name) and len(assigns.get(v.id, [])) == 1:
-                v = assigns[v.id][0]
-            out.append((st, v))
+    for n in cfg.real_nodes():
+        if isinstance(n.ast, ast.Return):
+            if n.ast.value is None:
+                out.append((n.ast, None))
+                continue
+            for v, _ in rules.reaching_values(func.node, cfg, n, n.ast.value):
+                out.append((n.ast, v))
     return out
 
 
@@ -361,9 +357,13 @@ def check_callback_handler(ctx):
         if ga and isinstance(ga[0].args[1], ast.BinOp) and isinstance(ga[0].args[1].left, ast.Constant) and norm(ga[0].args[1].right) == p:
             prefix = ga[0].args[1].left.value
             target = norm(ga[0].args[0])
-        first = re.sub(rf"\b{re.escape(p)}\b", "NAME", tests[0]) if tests else None
+        # the delegate is looked up exactly when no callback is registered under the name
+        first = None
+        for n in cfg.real_nodes():
+            if ga and any(c is ga[0] for c in n.calls):
+                first = sorted((re.sub(rf"\b{re.escape(p)}\b", "NAME", t), pol) for t, pol in cnd.facts(cfg, n))
         facts[m.name] = (first, prefix, target)
-    ok = facts["__contains__"] == facts["_call"] and facts["_call"][1] == "_on_" and facts["_call"][2] == "self.target" and facts["_call"][0] == "NAME in self._callbacks"
+    ok = facts["__contains__"] == facts["_call"] and facts["_call"][1] == "_on_" and facts["_call"][2] == "self.target" and facts["_call"][0] == [("NAME in self._callbacks", False)]
     ctx.ob("C08.C1", "CallbackHandler", ok, "membership and call use the same lookup: registered callback first, else target._on_<name>" if ok else f"__contains__ and _call look callbacks up differently: {facts}", where=cont.where)
     # _call: registered callback result is returned; delegate result is returned; else None
     cfg = cfg_of(call.node)
